@@ -425,6 +425,97 @@ def run_cases(ctx, cases, facts, stream):
     return xs
 
 
+# ------------------------------------------------------------------ the library's own client: Client.abort()
+def client_abort_run(direction, k, size):
+    """aioftp.Client against the real server: start a streamed transfer, move k blocks, Client.abort(), then use the
+    session again (list + full download).  Returns plain observations."""
+    import asyncio
+    import pathlib
+
+    import aioftp
+
+    from .. import simnet
+
+    obs = {}
+    xfer.CTL = xfer.Ctl([["read", k + 1]] if direction == "down" else [])
+
+    async def main(net):
+        net.loop.set_exception_handler(lambda l, c: None)
+        srv = aioftp.Server([aioftp.User(base_path="/", home_path="/")], path_io_factory=xfer.SpyIO, block_size=BLOCK)
+        await srv.start("127.0.0.1", xfer.MAIN_PORT)
+        pio = srv.path_io_factory(timeout=None, connection=None)
+        f = await aioftp.MemoryPathIO._open(pio, pathlib.PurePosixPath("/f"), "wb")
+        f.write(xfer.pattern(size))
+        xfer.CTL.handles.clear()
+        xfer.CTL.active = True
+        try:
+            async with aioftp.Client.context("127.0.0.1", xfer.MAIN_PORT, socket_timeout=30) as client:
+                if direction == "down":
+                    stream = await client.download_stream("f")
+                    got = b""
+                    for _ in range(k):
+                        got += await stream.read(BLOCK)
+                    obs["prefix_ok"] = xfer.pattern(size)[: len(got)] == got
+                else:
+                    stream = await client.upload_stream("up")
+                    for i in range(k):
+                        await stream.write(xfer.pattern(size)[i * BLOCK : (i + 1) * BLOCK])
+                    await net.settle()
+                try:
+                    await asyncio.wait_for(client.abort(), 20)
+                    obs["abort"] = "answered"
+                except asyncio.TimeoutError:
+                    obs["abort"] = "no reply within 20 virtual seconds"
+                except Exception as e:
+                    obs["abort"] = "error " + type(e).__name__
+                stream.close()
+                xfer.CTL.release(None)
+                await net.settle()
+                try:
+                    names = sorted(str(p) for p, _ in await asyncio.wait_for(client.list("/"), 20))
+                    buf = b""
+                    async with client.download_stream("f") as s2:
+                        async for blk in s2.iter_by_block(64):
+                            buf += blk
+                    obs["follow"] = "ok" if buf == xfer.pattern(size) and "/f" in names else f"wrong follow-up ({names}, {len(buf)} bytes)"
+                except Exception as e:
+                    obs["follow"] = "error " + type(e).__name__
+                if direction == "up":
+                    node = pio.get_node(pathlib.PurePosixPath("/up"))
+                    stored = node.content.getvalue() if node is not None else b""
+                    obs["prefix_ok"] = xfer.pattern(size)[: len(stored)] == stored
+                await net.settle()
+                obs["server_data_sockets"] = sum(1 for t in net.open_transports("server") if t.listener_port != xfer.MAIN_PORT and not t.closing)
+                obs["files"] = len(xfer.CTL.handles)
+        finally:
+            xfer.CTL.release(None)
+            try:
+                await asyncio.wait_for(srv.close(), 5)
+            except BaseException:
+                pass
+
+    simnet.run(main, wall_timeout=60)
+    return obs
+
+
+def client_stream(ctx):
+    n = 0
+    for direction in ("down", "up"):
+        for size in (BLOCK, 2 * BLOCK + 1, 10):
+            for k in range(0, -(-size // BLOCK) + 1):
+                if direction == "down" and k == 0:
+                    continue  # the library's download_stream returns after 150 only; nothing read yet is k = 0 of the raw stream
+                obs = client_abort_run(direction, k, size)
+                ctx.traces_impl += 1
+                n += 1
+                ctx.case(("client.abort", direction, size, k))
+                want = {"abort": "answered", "follow": "ok", "prefix_ok": True, "server_data_sockets": 0, "files": 0}
+                if obs != want:
+                    ctx.violation(f"Client.abort() during {direction}load after {k} block(s) of {size} bytes: {obs}",
+                                  {"key": f"c14-client-abort-{direction}", "client": [direction, k, size], "what": obs})
+    ctx.count("client_abort_cases", n)
+
+
 def obligations(ctx):
     o = ctx.model([(1, [])])[0]
     names = ["sound12", "sound14", "workers_ok", "fin_ok", "cancel_codes_ok"]
@@ -450,6 +541,7 @@ def correspondence(ctx, thorough=None):
     cases = gen_cases(ctx.rng, thorough)
     ctx.count("cases", len(cases))
     xs = run_cases(ctx, cases, facts, "abor")
+    client_stream(ctx)
     ok, out = core.vm_crosscheck(EXTRACT, xs[:30])
     ctx.extra["vm_compute_crosscheck"] = {"cases": len(xs[:30]), "agree": ok}
     if not ok:
@@ -490,6 +582,10 @@ def known(ctx):
 def replay(ctx, data):
     rp = data.get("replay", {})
     case = rp.get("case")
+    if case is None and "client" in rp:
+        obs = client_abort_run(*rp["client"])
+        print("Client.abort() run:", rp["client"], obs)
+        return obs == {"abort": "answered", "follow": "ok", "prefix_ok": True, "server_data_sockets": 0, "files": 0}
     if case is None:
         print("replay payload:", json.dumps(data)[:2000])
         return False
